@@ -69,6 +69,12 @@ func c14Inputs() []c14Input {
 		_ = os.WriteFile(R+"/aug/main.go", []byte("package main\n\nfunc many(a, b, c, d, e, f, g, h, i, j, k, l int) {\n\tpanic(a)\n}\n\nfunc main() {\n\tmany(1, 2, 3, 4, 5, 6, 7, 8, 9, 10, 11, 12)\n}\n"), 0o644)
 		out = append(out, c14Input{name: "augmented-elided", text: []byte(g(1, "running", "main.many", "0x1, 0x2, 0x3, 0x4, 0x5, 0x6, 0x7, 0x8, 0x9, 0xa, ...", R+"/aug/main.go", 4) + g(2, "select", "main.many", "0x1, 0x2, 0x3, 0x4, 0x5, 0x6, 0x7, 0x8, 0x9, 0xb, ...", R+"/aug/main.go", 4)),
 			mkOpts: func() *Opts { return &Opts{NameArguments: true, GuessPaths: true, AnalyzeSources: true} }})
+		// a vendored frame that path guessing rebased onto the local GOPATH (its relative
+		// path, not only its import path, goes through the vendor directory)
+		out = append(out, c14Input{name: "fs-vendored-rebased", text: []byte(g(1, "running", "example.com/a/vendor/github.com/x/y.Do", "0x1", "/ci/gp1/src/example.com/a/vendor/github.com/x/y/y.go", 3) + strings.TrimSuffix(g(2, "select", "example.com/a.A", "0x2", "/ci/gp1/src/example.com/a/a.go", 4), "\n") + "created by example.com/a/vendor/github.com/x/y.Start in goroutine 1\n\t/ci/gp1/src/example.com/a/vendor/github.com/x/y/y.go:9 +0x1\n\n"),
+			mkOpts: func() *Opts {
+				return &Opts{NameArguments: true, GuessPaths: true, LocalGOROOT: R + "/goroot", LocalGOPATHs: []string{R + "/gp1"}}
+			}})
 		// path guessing with two GOPATHs; the files are found under the second one and under a module
 		out = append(out, c14Input{name: "fs-two-gopaths", text: []byte(g(1, "running", "example.com/b.B", "0x1", "/ci/gp/src/example.com/b/b.go", 3) + g(2, "select", "example.com/m.X", "0x1", R+"/m/x.go", 10) + g(3, "select", "example.com/a.A", "0x2", "/ci/gp1/src/example.com/a/a.go", 4) + g(4, "select", "fmt.Println", "", "/ci/go/src/fmt/print.go", 5)),
 			mkOpts: func() *Opts {
